@@ -18,10 +18,23 @@ vec_matrix.rs / matrix.rs (Model/PrimeResidue.lean, Model/LinAlg.lean).
     rational_reconstruction_unique, lifting_invariant, modular_solver_exact (conditional on
     the step count: `(|N|+D)² < p^steps`);
   client: placement_barycentric (pgraphs.rs: the positions satisfy the barycentric
-    equations, conditional on non-singularity mod p and the step bound).
+    equations, conditional on non-singularity mod p and the step bound), assemble_no_panic
+    (the system is assembled without panic for every graph `PeriodicGraph::from` builds),
+    placement_barycentric_of_from (the two combined: no hypothesis on `assemble` left).
+  machine integers as they are (`i64Backend PRC.chk`: every `+ - * / abs neg` of the Rust
+    code followed by the range check of the overflow-checked build): i64_checked_refines_exact
+    (a checked run panics or returns exactly what the idealised run returns — for every
+    routine), i64_checked_exact (so every exactness theorem above holds of every
+    non-panicking i64 run), i64_no_overflow_of_bounded_run (a run whose intermediates stay
+    within `|x| ≤ b ≤ i64::MAX` does not overflow), i64_no_overflow_one_row,
+    i64_no_overflow_det_small (no overflow for 1×n rank / n×1 null space / closed determinant
+    formulas with |x| ≤ 2^31−1 resp. 10^6), i64_overflow_counterexample (finding
+    F-C18-overflow inside Lean: the checked model panics on a 6×4 matrix with |x| ≤ 10
+    whose exact rank is 4).
 Not proved: that the floating-point step count of the code meets the hypothesis of
-  modular_solver_exact; anything about f64; machine-integer overflow (theorems are about
-  idealised integers, known finding F-C18-overflow).
+  modular_solver_exact; anything about f64; a no-overflow bound for the i64 elimination on
+  general shapes in terms of the input entries (none holds that is useful: the known
+  finding overflows with |x| ≤ 10 on 6×4).
 -/
 import Mathlib.Tactic.NormNum.Prime
 import DSymVerif.Proofs.PrimeResidue
@@ -32,6 +45,9 @@ import DSymVerif.Proofs.RatRec
 import DSymVerif.Proofs.Instances
 import DSymVerif.Proofs.Lifting
 import DSymVerif.Proofs.PGraph
+import DSymVerif.Proofs.CheckedI64
+import DSymVerif.Proofs.CheckedI64Bounds
+import DSymVerif.Proofs.PGraphTotal
 
 namespace DSymVerif.C18
 
@@ -485,6 +501,202 @@ theorem sem_instances (p : ℕ) [Fact p.Prime] (hpm : (p : ℤ) ≤ PRC.maxP) :
       Sem (prcBackend p) (Canon p) (valP p) :=
   ⟨i64_sem, rat_sem, prc_sem hpm⟩
 
+/-! ### machine integers as they are: the overflow-checked `i64` back-end
+
+`i64Backend PRC.chk` performs every `+ - * / abs neg` of `Entry for i64`, `gcdx`, `Mul`,
+`determinant`, `solve` in the order of the Rust text and range-checks each result (the harness
+profile has `overflow-checks = true`, so leaving `[-2^63, 2^63)` is a panic).  It is the model
+whose outcome — value or `PANIC` — the driver compares with `VecMatrix<i64>` / `Matrix<i64,…>`. -/
+
+/-- `i64_checked_refines_exact`: for every routine, a run of the overflow-checked model either
+    panics or is exactly the run of the idealised-integer model; in particular whenever the
+    checked model returns `ok v` (or `None` for `solve`/`inverse`) so does the idealised one. -/
+theorem i64_checked_refines_exact {nr nc k n : Nat} (a : Mat Int nr nc) (b : Mat Int nr k)
+    (q : Mat Int n n) :
+    (∀ re, echelon (i64Backend PRC.chk) true a = .ok re → echelon (i64Backend .ok) true a = .ok re) ∧
+    (∀ r, rank (i64Backend PRC.chk) a = .ok r → rank (i64Backend .ok) a = .ok r) ∧
+    (∀ v, nullSpace (i64Backend PRC.chk) a = .ok v → nullSpace (i64Backend .ok) a = .ok v) ∧
+    (∀ v, nullSpaceMatrix (i64Backend PRC.chk) a = .ok v →
+      nullSpaceMatrix (i64Backend .ok) a = .ok v) ∧
+    (∀ x, solve (i64Backend PRC.chk) a b = .ok x → solve (i64Backend .ok) a b = .ok x) ∧
+    (solve (i64Backend PRC.chk) a b = .err → solve (i64Backend .ok) a b = .err) ∧
+    (∀ d, determinant (i64Backend PRC.chk) q = .ok d → determinant (i64Backend .ok) q = .ok d) ∧
+    (∀ x, inverse (i64Backend PRC.chk) q = .ok x → inverse (i64Backend .ok) q = .ok x) ∧
+    (inverse (i64Backend PRC.chk) q = .err → inverse (i64Backend .ok) q = .err) :=
+  ⟨fun _ h => (echelon_ref i64_chk_ref true a).ok_eq h,
+   fun _ h => (rank_ref i64_chk_ref a).ok_eq h,
+   fun _ h => (nullSpace_ref i64_chk_ref a).ok_eq h,
+   fun _ h => (nullSpaceMatrix_ref i64_chk_ref a).ok_eq h,
+   fun _ h => (solve_ref i64_chk_ref a b).ok_eq h,
+   fun h => (solve_ref i64_chk_ref a b).err_eq h,
+   fun _ h => (determinant_ref i64_chk_ref q).ok_eq h,
+   fun _ h => (inverse_ref i64_chk_ref q).ok_eq h,
+   fun h => (inverse_ref i64_chk_ref q).err_eq h⟩
+
+/-- the same as a dichotomy: the only way the checked run differs from the exact one is a panic -/
+theorem i64_checked_panic_or_exact {nr nc k n : Nat} (a : Mat Int nr nc) (b : Mat Int nr k)
+    (q : Mat Int n n) :
+    (rank (i64Backend PRC.chk) a = .panic ∨ rank (i64Backend PRC.chk) a = rank (i64Backend .ok) a) ∧
+    (nullSpace (i64Backend PRC.chk) a = .panic ∨
+      nullSpace (i64Backend PRC.chk) a = nullSpace (i64Backend .ok) a) ∧
+    (nullSpaceMatrix (i64Backend PRC.chk) a = .panic ∨
+      nullSpaceMatrix (i64Backend PRC.chk) a = nullSpaceMatrix (i64Backend .ok) a) ∧
+    (solve (i64Backend PRC.chk) a b = .panic ∨
+      solve (i64Backend PRC.chk) a b = solve (i64Backend .ok) a b) ∧
+    (determinant (i64Backend PRC.chk) q = .panic ∨
+      determinant (i64Backend PRC.chk) q = determinant (i64Backend .ok) q) ∧
+    (inverse (i64Backend PRC.chk) q = .panic ∨
+      inverse (i64Backend PRC.chk) q = inverse (i64Backend .ok) q) :=
+  ⟨rank_ref i64_chk_ref a, nullSpace_ref i64_chk_ref a, nullSpaceMatrix_ref i64_chk_ref a,
+   solve_ref i64_chk_ref a b, determinant_ref i64_chk_ref q, inverse_ref i64_chk_ref q⟩
+
+example : rank (i64Backend PRC.chk) (#v[#v[2, 4], #v[1, 3]] : Mat Int 2 2) = .ok 2 := by decide
+example : solve (i64Backend PRC.chk) (#v[#v[2, 4], #v[1, 3]] : Mat Int 2 2)
+    (#v[#v[2], #v[2]] : Mat Int 2 1) = .ok #v[#v[-1], #v[1]] := by decide
+
+/-- `i64_checked_exact`: hence every exactness theorem about the idealised integers holds of
+    every non-panicking run of the overflow-checked `i64` model: echelon invariant with
+    unimodular multiplier, rank = `Matrix.rank` over ℚ, exact integer determinant, `solve` /
+    `inverse` sound over ℤ, null space annihilated and of the right size. -/
+theorem i64_checked_exact {nr nc k n : Nat} (a : Mat Int nr nc) (b : Mat Int nr k)
+    (q : Mat Int n n) :
+    (∀ re, echelon (i64Backend PRC.chk) true a = .ok re →
+      toMatrixZ re.multiplier * toMatrixZ a = toMatrixZ re.result ∧
+      (toMatrixZ re.multiplier).det = (-1) ^ re.nrSwaps ∧
+      IsEchelon valI re.result re.rank re.columns) ∧
+    (∀ r, rank (i64Backend PRC.chk) a = .ok r → r = (toMatrix valI a).rank) ∧
+    (∀ d, determinant (i64Backend PRC.chk) q = .ok d → d = (toMatrixZ q).det) ∧
+    (∀ x, solve (i64Backend PRC.chk) a b = .ok x → toMatrixZ a * toMatrixZ x = toMatrixZ b) ∧
+    (∀ x, inverse (i64Backend PRC.chk) q = .ok x → toMatrixZ q * toMatrixZ x = 1) ∧
+    (∀ v, nullSpaceMatrix (i64Backend PRC.chk) a = .ok v →
+      ∃ (r : Nat) (_ : r ≤ nc) (s : Mat Int nc nc),
+        v = ((List.range nc).map fun i => ((List.range nc).drop r).map fun j => entryD s 0 i j) ∧
+        r = (toMatrix valI a).rank ∧
+        (toMatrix valI a * Matrix.of (fun (l : Fin nc) (j : Fin (nc - r)) =>
+          valI ((s[l.1])[r + j.1]'(by have := j.2; omega))) = 0) ∧
+        LinearIndependent ℚ (fun (j : Fin (nc - r)) (l : Fin nc) =>
+          valI ((s[l.1])[r + j.1]'(by have := j.2; omega)))) := by
+  obtain ⟨he, hr, _, hn, hs, _, hd, hi, _⟩ := i64_checked_refines_exact a b q
+  refine ⟨?_, ?_, ?_, ?_, ?_, ?_⟩
+  · intro re h
+    obtain ⟨re', h', h1, h2, h3⟩ := echelon_invariant_i64 a
+    rw [he re h] at h'
+    cases h'
+    exact ⟨h1, h2, h3⟩
+  · intro r h
+    obtain ⟨r', h', h1⟩ := rank_eq_i64 a
+    rw [hr r h] at h'
+    cases h'
+    exact h1
+  · intro d h
+    obtain ⟨d', h', h1⟩ := determinant_eq_i64 q
+    rw [hd d h] at h'
+    cases h'
+    exact h1
+  · intro x h
+    exact solve_sound_i64 a b x (hs x h)
+  · intro x h
+    exact inverse_sound_i64 q x (hi x h)
+  · intro v h
+    obtain ⟨r, hr', s, h1, _, h2, h3, h4⟩ := null_space_spec i64_sem a (allE_true a)
+    rw [hn v h] at h1
+    exact ⟨r, hr', s, Outcome.ok.inj h1, h2, h3, h4⟩
+
+/-- `i64_no_overflow_of_bounded_run` (sufficient condition in terms of the magnitudes the model
+    itself tracks): run the model with the tighter range check `|x| ≤ b` for some
+    `b ≤ i64::MAX` (`chkB b`); if that run returns, no intermediate of the elimination exceeded
+    `b`, and the overflow-checked `i64` model returns the same value — no overflow. -/
+theorem i64_no_overflow_of_bounded_run (bd : Int) (hb : bd ≤ PRC.i64Max) {nr nc k n : Nat}
+    (a : Mat Int nr nc) (b : Mat Int nr k) (q : Mat Int n n) :
+    (∀ r, rank (i64Backend (chkB bd)) a = .ok r → rank (i64Backend PRC.chk) a = .ok r) ∧
+    (∀ v, nullSpace (i64Backend (chkB bd)) a = .ok v → nullSpace (i64Backend PRC.chk) a = .ok v) ∧
+    (∀ v, nullSpaceMatrix (i64Backend (chkB bd)) a = .ok v →
+      nullSpaceMatrix (i64Backend PRC.chk) a = .ok v) ∧
+    (∀ x, solve (i64Backend (chkB bd)) a b = .ok x → solve (i64Backend PRC.chk) a b = .ok x) ∧
+    (solve (i64Backend (chkB bd)) a b = .err → solve (i64Backend PRC.chk) a b = .err) ∧
+    (∀ d, determinant (i64Backend (chkB bd)) q = .ok d →
+      determinant (i64Backend PRC.chk) q = .ok d) ∧
+    (∀ x, inverse (i64Backend (chkB bd)) q = .ok x → inverse (i64Backend PRC.chk) q = .ok x) ∧
+    (inverse (i64Backend (chkB bd)) q = .err → inverse (i64Backend PRC.chk) q = .err) :=
+  ⟨fun _ h => (rank_ref (i64_chkB_ref hb) a).ok_eq h,
+   fun _ h => (nullSpace_ref (i64_chkB_ref hb) a).ok_eq h,
+   fun _ h => (nullSpaceMatrix_ref (i64_chkB_ref hb) a).ok_eq h,
+   fun _ h => (solve_ref (i64_chkB_ref hb) a b).ok_eq h,
+   fun h => (solve_ref (i64_chkB_ref hb) a b).err_eq h,
+   fun _ h => (determinant_ref (i64_chkB_ref hb) q).ok_eq h,
+   fun _ h => (inverse_ref (i64_chkB_ref hb) q).ok_eq h,
+   fun h => (inverse_ref (i64_chkB_ref hb) q).err_eq h⟩
+
+/-- non-vacuity: all intermediates of this 3×3 elimination stay within `|x| ≤ 100` … -/
+example : (100 : Int) ≤ PRC.i64Max := by decide
+example : rank (i64Backend (chkB 100)) (#v[#v[2, 4, 1], #v[1, 3, 0], #v[5, 0, 7]] : Mat Int 3 3)
+    = .ok 3 := by decide
+/-- … but not within `|x| ≤ 20` (the bound is sharp information about the run, not a default) -/
+example : rank (i64Backend (chkB 20)) (#v[#v[2, 4, 1], #v[1, 3, 0], #v[5, 0, 7]] : Mat Int 3 3)
+    = .panic := by decide
+
+/-- `i64_no_overflow_one_row`: on one-row matrices the elimination performs no `i64` arithmetic at
+    all, so for EVERY entry (even `i64::MIN`) `rank` of a `1 × n` matrix and `null_space` /
+    `null_space_matrix` of an `n × 1` matrix cannot overflow: the checked run is the exact run
+    and returns. -/
+theorem i64_no_overflow_one_row {n : Nat} (a : Mat Int 1 n) (c : Mat Int n 1) :
+    (∃ r, rank (i64Backend PRC.chk) a = .ok r ∧ r = (toMatrix valI a).rank) ∧
+    (nullSpace (i64Backend PRC.chk) c = nullSpace (i64Backend .ok) c ∧
+      ∃ v, nullSpace (i64Backend PRC.chk) c = .ok v) ∧
+    (nullSpaceMatrix (i64Backend PRC.chk) c = nullSpaceMatrix (i64Backend .ok) c ∧
+      ∃ v, nullSpaceMatrix (i64Backend PRC.chk) c = .ok v) := by
+  refine ⟨?_, ⟨nullSpace_one_col _ _ c, ?_⟩, ⟨nullSpaceMatrix_one_col _ _ c, ?_⟩⟩
+  · rw [rank_one_row PRC.chk .ok a]; exact rank_eq_i64 a
+  · rw [nullSpace_one_col PRC.chk .ok c]
+    exact (no_panic_any_shape_i64 c c).2.1
+  · rw [nullSpaceMatrix_one_col PRC.chk .ok c]
+    exact (no_panic_any_shape_i64 c c).2.2.1
+
+example : rank (i64Backend PRC.chk) (#v[#v[0, PRC.i64Min, 3]] : Mat Int 1 3) = .ok 1 := by decide
+
+/-- `i64_no_overflow_det_small`: the closed determinant formulas do not overflow for entries that
+    fit an `i32` (2×2: `|ad| + |bc| ≤ 2·(2^31−1)^2 < 2^63`) resp. `|x| ≤ 10^6` (3×3: every partial
+    sum of the six triple products is `≤ 6·10^18 < 2^63`); the checked run returns the exact
+    integer determinant.  (1×1: no arithmetic, any entry.) -/
+theorem i64_no_overflow_det_small :
+    (∀ m : Mat Int 1 1, ∃ d, determinant (i64Backend PRC.chk) m = .ok d ∧ d = (toMatrixZ m).det) ∧
+    (∀ m : Mat Int 2 2, AllE (fun x => |x| ≤ 2147483647) m →
+      ∃ d, determinant (i64Backend PRC.chk) m = .ok d ∧ d = (toMatrixZ m).det) ∧
+    (∀ m : Mat Int 3 3, AllE (fun x => |x| ≤ 1000000) m →
+      ∃ d, determinant (i64Backend PRC.chk) m = .ok d ∧ d = (toMatrixZ m).det) := by
+  refine ⟨fun m => ?_, fun m h => ?_, fun m h => ?_⟩
+  · rw [det1_chk PRC.chk .ok m]; exact determinant_eq_i64 m
+  · rw [det2_chk m h]; exact determinant_eq_i64 m
+  · rw [det3_chk m h]; exact determinant_eq_i64 m
+
+example : AllE (fun x => |x| ≤ 2147483647) (#v[#v[2147483647, -2147483647],
+    #v[2147483647, 2147483647]] : Mat Int 2 2) := by
+  intro i j hi hj
+  have hi' : i = 0 ∨ i = 1 := by omega
+  have hj' : j = 0 ∨ j = 1 := by omega
+  rcases hi' with rfl | rfl <;> rcases hj' with rfl | rfl <;> decide +revert
+example : determinant (i64Backend PRC.chk) (#v[#v[2147483647, -2147483647],
+    #v[2147483647, 2147483647]] : Mat Int 2 2) = .ok 9223372028264841218 := by decide
+/-- the 2×2 bound is sharp up to the last unit: with one entry `2^31` the sum leaves the range -/
+example : determinant (i64Backend PRC.chk) (#v[#v[2147483648, -2147483648],
+    #v[2147483648, 2147483648]] : Mat Int 2 2) = .panic := by decide
+
+/-- the matrix of known finding F-C18-overflow (entries `|x| ≤ 10`) -/
+def overflowMatrix : Mat Int 6 4 :=
+  #v[#v[-4, -7, 8, -5], #v[7, -7, 0, 7], #v[-10, 6, 2, 4], #v[-8, 3, 2, -5], #v[9, -1, -1, 2],
+     #v[0, -10, -4, 1]]
+
+/-- `i64_overflow_counterexample` (finding F-C18-overflow, decided inside Lean): on this 6×4
+    matrix with entries `|x| ≤ 10` the overflow-checked `i64` model of `rank` panics (an
+    intermediate of the gcd elimination leaves `[-2^63, 2^63)`), although the exact rank is 4
+    (idealised model; it equals `Matrix.rank` by `rank_eq_i64`) and all intermediates of the
+    exact run stay below `10^20`. -/
+theorem i64_overflow_counterexample :
+    rank (i64Backend PRC.chk) overflowMatrix = .panic ∧
+    rank (i64Backend .ok) overflowMatrix = .ok 4 ∧
+    rank (i64Backend (chkB 100000000000000000000)) overflowMatrix = .ok 4 := by
+  refine ⟨by decide, by decide, by decide⟩
+
 /-! ### modular solver -/
 
 /-- (○, partial correctness) whatever fraction `q` `rational_reconstruction(s, h)` returns
@@ -589,6 +801,50 @@ theorem placement_barycentric (p : ℕ) [Fact p.Prime] (hpm : (p : ℤ) ≤ PRC.
                 valQ ((P[PG.idxD g.vertices ngb.tail])[k]) else 0) +
               ((ngb.shift.getD k 0 : Int) : ℚ) - valQ ((P[i])[k])).sum = 0 :=
   PG.placement_barycentric_core hpm steps g a t hasm hns hbound
+
+/-- `assemble_no_panic` (former open obligation (iii) of `placement_barycentric`): for every graph
+    `g` built as `PeriodicGraph::from` builds it (model `PG.Graph.ofEdges raw = ok g`: canonical
+    edges in a sorted duplicate-free set, at least one edge, all shifts of one dimension, the
+    sorted vertex set of all end points), `barycentric_placement` assembles its system without a
+    panic: the vertex list is non-empty (`a[0][0] = 1`), every `vidcs[&ngb.tail]` lookup
+    succeeds with an in-range index, every `s[k][0]`, `k < dim`, exists, every matrix access is
+    in range. -/
+theorem assemble_no_panic (raw : List PG.Edge) (g : PG.Graph) (h : PG.Graph.ofEdges raw = .ok g) :
+    g.WF ∧ ∃ a t, PG.assemble g g.vertices.length g.dim = .ok (a, t) := by
+  obtain ⟨⟨a, t⟩, hat⟩ := PG.assemble_ok_of_ofEdges h
+  exact ⟨PG.ofEdges_wf h, a, t, hat⟩
+
+example : ∃ g, PG.Graph.ofEdges [⟨1, 2, [0, 0, 0]⟩, ⟨1, 2, [1, 0, 0]⟩, ⟨1, 2, [0, 1, 0]⟩,
+    ⟨1, 2, [0, 0, 1]⟩] = .ok g :=
+  ⟨_, rfl⟩
+/-- `from` itself can panic (no edge; mixed dimensions) — those graphs are never built -/
+example : PG.Graph.ofEdges [] = .panic := rfl
+example : PG.Graph.ofEdges [⟨1, 2, [0, 0]⟩, ⟨1, 2, [1, 0, 0]⟩] = .panic := rfl
+
+/-- `placement_barycentric` for graphs built by `PeriodicGraph::from`: the system `a·x = t` exists
+    (no panic), and under the two remaining hypotheses — `a` non-singular modulo `p`, step bound
+    on the exact solution — `placement` returns the barycentric placement. -/
+theorem placement_barycentric_of_from (p : ℕ) [Fact p.Prime] (hpm : (p : ℤ) ≤ PRC.maxP)
+    (steps : Nat) (raw : List PG.Edge) (g : PG.Graph) (hg : PG.Graph.ofEdges raw = .ok g) :
+    ∃ (a : Mat Int g.vertices.length g.vertices.length) (t : Mat Int g.vertices.length g.dim),
+      PG.assemble g g.vertices.length g.dim = .ok (a, t) ∧
+      (¬ (p : ℤ) ∣ (toMatrixZ a).det →
+       (∀ i j, (|(PG.exactSolution a t i j).num| + ((PG.exactSolution a t i j).den : ℤ)) *
+          (|(PG.exactSolution a t i j).num| + ((PG.exactSolution a t i j).den : ℤ)) <
+            (p : ℤ) ^ steps) →
+       ∃ P : Mat Q g.vertices.length g.dim,
+        PG.placement p steps g = .ok (g.vertices.zip P.toLists) ∧
+        (∀ (i k : Nat) (hi : i < g.vertices.length) (hk : k < g.dim), QWF ((P[i])[k])) ∧
+        ∃ _ : 0 < g.vertices.length,
+          (∀ (k : Nat) (hk : k < g.dim), valQ ((P[0])[k]) = 0) ∧
+          ∀ (i : Nat) (hi : i < g.vertices.length), 1 ≤ i → ∃ v, g.vertices[i]? = some v ∧
+            ∀ (k : Nat) (hk : k < g.dim),
+              ((g.incidences v).map fun ngb =>
+                (if h : PG.idxD g.vertices ngb.tail < g.vertices.length then
+                  valQ ((P[PG.idxD g.vertices ngb.tail])[k]) else 0) +
+                ((ngb.shift.getD k 0 : Int) : ℚ) - valQ ((P[i])[k])).sum = 0) := by
+  obtain ⟨_, a, t, hat⟩ := assemble_no_panic raw g hg
+  exact ⟨a, t, hat, fun hns hbound => placement_barycentric p hpm steps g a t hat hns hbound⟩
 
 /-- the second graph of the repository's own test (two vertices joined by four edges):
     vertex 2 sits at the barycentre (-1/4, -1/4, -1/4) of its four neighbours `1 − s` -/
